@@ -25,14 +25,17 @@ func Harness_C20_ops() {
 	if verifChoose("store.populated", 2) == 1 {
 		_ = ms.Put("/users/alice", &User{Name: "alice"})
 		_ = ms.Put("/services/svc", &Service{Name: "svc", Metadata: *verifSPMetadata("https://sp.example.com/metadata")})
-		s.serviceProviders["https://sp.example.com/metadata"] = verifSPMetadata("https://sp.example.com/metadata")
+		registered := verifSPMetadata("https://sp.example.com/metadata")
+		s.serviceProviders["https://sp.example.com/metadata"] = registered
+		// a registered descriptor is handed out by GetServiceProvider and read without any lock for the rest of a request
+		verifNameHeapObject("registry.descriptor", registered)
 		_ = ms.Put("/shortcuts/sc", &Shortcut{Name: "sc", ServiceProviderID: "https://sp.example.com/metadata"})
 		_ = ms.Put("/sessions/"+cookie, &saml.Session{ID: cookie, NameID: "alice", ExpireTime: saml.TimeNow().Add(sessionMaxAge)})
 	}
 	keys := []string{"/users/alice", "/services/svc", "sc", "svc", "alice", "https://sp.example.com/metadata", "absent"}
 	key := keys[verifChoose("key", len(keys))]
 	w := verifNewResponseWriter()
-	switch verifChoose("op", 11) {
+	switch verifChoose("op", 12) {
 	case 0:
 		verifOp("store.Get")
 		var u User
@@ -73,6 +76,12 @@ func Harness_C20_ops() {
 		r := verifRequestBody("PUT", "https://idp.example.com/users/x", nil, nil)
 		r.SetPathValue("id", key)
 		s.HandlePutUser(w, r)
+	case 11:
+		// metadata refresh: a PUT for an entity ID that is already registered
+		verifOp("server.HandlePutService(refresh)")
+		r := verifRequestBody("PUT", "https://idp.example.com/services/x", verifMarshalXML(verifSPMetadata("https://sp.example.com/metadata")), nil)
+		r.SetPathValue("id", key)
+		s.HandlePutService(w, r)
 	case 10:
 		verifOp("server.HandleListServices")
 		s.HandleListServices(w, verifRequest("GET", "https://idp.example.com/services/", nil, nil))
